@@ -1,15 +1,18 @@
-import IncrVerif.Engine.Recompute
+import IncrVerif.Proofs.HeapWF
 import IncrVerif.Proofs.Heights
 import Std.Do
 import Std.Tactic.Do
 /-!
 # Helper lemmas for C13 (a panic escaping `stabilise` poisons the state)
 
-`Fr t s` says "the status of `s` is `t.status` and its configuration is `t.cfg`".  Part 1 pushes this
+`Fr t s` says "the status of `s` is `t.status`, its configuration is `t.cfg`, its liveness flag is
+`t.alive`".  Part 1 pushes this
 frame through every function of the model except `stabilise` and `stabiliseEnd` as a Hoare triple
 `FPres t x := ⦃Fr t⦄ x ⦃post⟨Fr t, Fr t⟩⦄` (normal return *and* panic), in the style of
-`Proofs/HeapWF.lean` (that file is deliberately not imported here: its `@[spec]` lemmas talk about
-the same programs).  Part 2 splits `stabilise` into its phases.  Part 3 is the recompute-heap drain.
+`Proofs/HeapWF.lean`.  That file is imported (two modules that run `mvcgen` over the same model
+functions cannot be imported side by side: the auxiliary matcher lemmas would be declared twice), so
+its `@[spec]` lemmas about the same programs are in scope: `fr_mvcgen` is `mvcgen` with all of them
+erased, and the lemmas here are registered with high priority.  Part 2 splits `stabilise` into its phases.  Part 3 is the recompute-heap drain.
 -/
 namespace IncrVerif.Proofs.Poison
 open IncrVerif.Engine IncrVerif.Proofs Std.Do
@@ -18,47 +21,61 @@ set_option mvcgen.warning false
 
 /-! ## the frame -/
 
-/-- the two fields nothing but `stabilise`/`stabiliseEnd` may write (a record of its own, so that
+/-- the fields nothing but `stabilise`/`stabiliseEnd` may write (a record of its own, so that
 `mvcgen` can never confuse it with a value of the program) -/
 structure Tag where
   status : Status
   cfg : Cfg
+  alive : Bool
 
-def Fr (t : Tag) (s : State) : Prop := s.status = t.status ∧ s.cfg = t.cfg
+def Fr (t : Tag) (s : State) : Prop := s.status = t.status ∧ s.cfg = t.cfg ∧ s.alive = t.alive
 
-def tagOf (s : State) : Tag := ⟨s.status, s.cfg⟩
+def tagOf (s : State) : Tag := ⟨s.status, s.cfg, s.alive⟩
 
-theorem Fr_tagOf (s : State) : Fr (tagOf s) s := ⟨rfl, rfl⟩
+theorem Fr_tagOf (s : State) : Fr (tagOf s) s := ⟨rfl, rfl, rfl⟩
 
 abbrev FPres {α} (t : Tag) (x : M α) : Prop :=
   ⦃fun s => ⌜Fr t s⌝⦄ x ⦃post⟨fun _ s => ⌜Fr t s⌝, fun _ s => ⌜Fr t s⌝⟩⦄
 
-/-- what a triple over `M` says about `run` (same as `Proofs.wp_M`) -/
-theorem wp_M {α} (x : M α) (Q : PostCond α (.except Panic (.arg State .pure))) (s : State) :
-    (wp⟦x⟧ Q s) = match x.run.run s with
-      | (.ok a, s') => Q.1 a s'
-      | (.error e, s') => Q.2.1 e s' := by
-  simp only [wp, PredTrans.pushExcept, PredTrans.pushArg, PredTrans.apply]
-  simp [StateT.run, ExceptT.run, Id.run, pure, PredTrans.pure]
-  split <;> simp_all
+open Lean.Parser.Tactic in
+/-- `mvcgen` blind to the `HeapWF` specifications of `Proofs/HeapWF.lean` -/
+macro "fr_mvcgen" " [" args:(simpStar <|> simpErase <|> simpLemma),* "]" : tactic =>
+  let args : Lean.Syntax.TSepArray [``simpStar, ``simpErase, ``simpLemma] "," := ⟨args.elemsAndSeps⟩
+  `(tactic| mvcgen [$args,*,
+      -IncrVerif.Proofs.rchInsert_spec, -IncrVerif.Proofs.rchRemove_spec, -IncrVerif.Proofs.rchMinHeight_spec,
+      -IncrVerif.Proofs.rchIncreaseHeight_spec, -IncrVerif.Proofs.rchRemoveMin_spec, -IncrVerif.Proofs.modNode_spec,
+      -IncrVerif.Proofs.logEv_spec, -IncrVerif.Proofs.tick_spec, -IncrVerif.Proofs.modBind_spec,
+      -IncrVerif.Proofs.modExpert_spec, -IncrVerif.Proofs.modObs_spec, -IncrVerif.Proofs.modVar_spec,
+      -IncrVerif.Proofs.bumpCounter_spec, -IncrVerif.Proofs.setHeight_spec, -IncrVerif.Proofs.addParent_spec,
+      -IncrVerif.Proofs.removeParent_spec, -IncrVerif.Proofs.handleAfterStabilisation_spec, -IncrVerif.Proofs.maybeHandleAfterStabilisation_spec,
+      -IncrVerif.Proofs.assertM_spec, -IncrVerif.Proofs.dassert_spec, -IncrVerif.Proofs.getNode_spec,
+      -IncrVerif.Proofs.getBind_spec, -IncrVerif.Proofs.getExpert_spec, -IncrVerif.Proofs.getVar_spec,
+      -IncrVerif.Proofs.getObs_spec, -IncrVerif.Proofs.scopeHeight_spec, -IncrVerif.Proofs.scopeIsNecessary_spec,
+      -IncrVerif.Proofs.scopeIsValid_spec, -IncrVerif.Proofs.isConstant_spec, -IncrVerif.Proofs.resolveOpnd_spec,
+      -IncrVerif.Proofs.expertOf_spec, -IncrVerif.Proofs.expertIdxRaw_spec, -IncrVerif.Proofs.valueUnwrap_spec,
+      -IncrVerif.Proofs.assertRunningIsChild_spec, -IncrVerif.Proofs.createNode_spec, -IncrVerif.Proofs.createVar_spec,
+      -IncrVerif.Proofs.createBind_spec, -IncrVerif.Proofs.ahhAddUnlessMem_spec, -IncrVerif.Proofs.ahhRemoveMin_spec,
+      -IncrVerif.Proofs.ensureHeightRequirement_spec, -IncrVerif.Proofs.shouldCutoff_spec, -IncrVerif.Proofs.edgeOnChange_spec,
+      -IncrVerif.Proofs.runEdgeCallback_spec, -IncrVerif.Proofs.observabilityChange_spec, -IncrVerif.Proofs.becameUnnecessary_spec,
+      -IncrVerif.Proofs.checkIfUnnecessary_spec, -IncrVerif.Proofs.removeChildren_spec, -IncrVerif.Proofs.invalidateNode_spec,
+      -IncrVerif.Proofs.propagateInvalidity_spec, -IncrVerif.Proofs.adjustHeightsLoop_spec, -IncrVerif.Proofs.adjustHeights_spec,
+      -IncrVerif.Proofs.markMapRefUnknown_spec, -IncrVerif.Proofs.becameNecessary_spec, -IncrVerif.Proofs.addParentWithoutAdjustingHeights_spec,
+      -IncrVerif.Proofs.becameNecessaryPropagate_spec, -IncrVerif.Proofs.stateAddParent_spec, -IncrVerif.Proofs.changeChildBindRhs_spec,
+      -IncrVerif.Proofs.mapM_spec, -IncrVerif.Proofs.mapConst_spec, -IncrVerif.Proofs.expertMakeStale_spec,
+      -IncrVerif.Proofs.expertAddDependency_spec, -IncrVerif.Proofs.swapEdgeIndices_spec, -IncrVerif.Proofs.expertRemoveDependency_spec,
+      -IncrVerif.Proofs.expertInvalidate_spec, -IncrVerif.Proofs.elabInstr_spec, -IncrVerif.Proofs.elabTemplate_spec,
+      -IncrVerif.Proofs.didSetVarWhileNotStabilising_spec, -IncrVerif.Proofs.writeVar_spec, -IncrVerif.Proofs.disallowFutureUse_spec,
+      -IncrVerif.Proofs.subscribe_spec, -IncrVerif.Proofs.unsubscribe_spec, -IncrVerif.Proofs.runEffectBasic_spec,
+      -IncrVerif.Proofs.childChanged_spec, -IncrVerif.Proofs.parentIterCanRecomputeNow_spec, -IncrVerif.Proofs.maybeChangeValueManual_spec,
+      -IncrVerif.Proofs.maybeChangeValue_spec, -IncrVerif.Proofs.runEffects_spec, -IncrVerif.Proofs.recomputeOne_spec,
+      -IncrVerif.Proofs.recompute_spec, -IncrVerif.Proofs.addNewObservers_spec, -IncrVerif.Proofs.unlinkDisallowedObservers_spec,
+      -IncrVerif.Proofs.runAll_spec, -IncrVerif.Proofs.stabiliseEnd_spec, -IncrVerif.Proofs.drainHeap_spec,
+      -IncrVerif.Proofs.stabilise_spec, -IncrVerif.Proofs.setMaxHeightAllowed_spec])
 
-theorem triple_iff {α} (x : M α) (P : State → Prop) (Q : α → State → Prop) (E : Panic → State → Prop) :
-    (⦃fun s => ⌜P s⌝⦄ x ⦃post⟨fun r s => ⌜Q r s⌝, fun e s => ⌜E e s⌝⟩⦄) ↔
-      ∀ s, P s → match x.run.run s with
-        | (.ok a, s') => Q a s'
-        | (.error e, s') => E e s' := by
-  simp only [Triple, SPred.entails_1, SPred.down_pure, wp_M]
-  constructor
-  · intro h s hp
-    have := h s hp
-    split at this <;> simp_all
-  · intro h s hp
-    have := h s hp
-    split <;> simp_all
-
-/-- the frame in plain form: status and configuration after running `x`, value or panic -/
+/-- the frame in plain form: status, configuration and liveness after running `x`, value or panic -/
 theorem FPres.run {α} {x : M α} (h : ∀ t, FPres t x) (s : State) :
-    (x.run.run s).2.status = s.status ∧ (x.run.run s).2.cfg = s.cfg := by
+    (x.run.run s).2.status = s.status ∧ (x.run.run s).2.cfg = s.cfg ∧
+      (x.run.run s).2.alive = s.alive := by
   have := (triple_iff x _ _ _).1 (h (tagOf s)) s (Fr_tagOf s)
   split at this <;> simp_all [Fr, tagOf]
 
@@ -83,123 +100,121 @@ macro "fr_fin" t:term : tactic =>
                | skip))
 
 /-- loop rule without invariants -/
-theorem forIn_pres {α β} (t : Tag) (l : List α) (init : β) (f : α → β → M (ForInStep β))
+theorem forIn_fr {α β} (t : Tag) (l : List α) (init : β) (f : α → β → M (ForInStep β))
     (hf : ∀ a b, FPres t (f a b)) : FPres t (forIn l init f) := by
   induction l generalizing init with
   | nil => simp only [List.forIn_nil]; mvcgen
   | cons a l ih =>
     rw [List.forIn_cons]
     have := hf a init
-    mvcgen [this, ih]
-
-attribute [local spec] IncrVerif.Engine.panic
+    fr_mvcgen [this, ih]
 
 /-! ## Part 1: every function but `stabilise`/`stabiliseEnd` keeps status and configuration -/
 
 section frame
 variable (t : Tag)
 
-@[spec] theorem assertM_fr (c : Bool) (site : String) : FPres t (assertM c site) := by
-  mvcgen [assertM]
-@[spec] theorem dassert_fr (c : Bool) (site : String) : FPres t (dassert c site) := by
-  mvcgen [dassert]
-@[spec] theorem logEv_fr (e : Event) : FPres t (logEv e) := by
-  mvcgen [logEv]
-@[spec] theorem tick_fr : FPres t tick := by
-  mvcgen [tick]
-@[spec] theorem getNode_fr (n : Nat) : FPres t (getNode n) := by
-  mvcgen [getNode]
-@[spec] theorem modNode_fr (n : Nat) (f : Node → Node) : FPres t (modNode n f) := by
-  mvcgen [modNode]
-@[spec] theorem getBind_fr (n : Nat) : FPres t (getBind n) := by
-  mvcgen [getBind]
-@[spec] theorem modBind_fr (n : Nat) (f : BindRec → BindRec) : FPres t (modBind n f) := by
-  mvcgen [modBind]
-@[spec] theorem getExpert_fr (n : Nat) : FPres t (getExpert n) := by
-  mvcgen [getExpert]
-@[spec] theorem modExpert_fr (n : Nat) (f : ExpertRec → ExpertRec) : FPres t (modExpert n f) := by
-  mvcgen [modExpert]
-@[spec] theorem getVar_fr (n : Nat) : FPres t (getVar n) := by
-  mvcgen [getVar]
-@[spec] theorem modVar_fr (n : Nat) (f : VarCell → VarCell) : FPres t (modVar n f) := by
-  mvcgen [modVar]
-@[spec] theorem getObs_fr (n : Nat) : FPres t (getObs n) := by
-  mvcgen [getObs]
-@[spec] theorem modObs_fr (n : Nat) (f : ObsRec → ObsRec) : FPres t (modObs n f) := by
-  mvcgen [modObs]
-@[spec] theorem bumpCounter_fr (f : Counters → Counters) : FPres t (bumpCounter f) := by
-  mvcgen [bumpCounter]
-@[spec] theorem scopeHeight_fr (sc : Scope) : FPres t (scopeHeight sc) := by
-  mvcgen [scopeHeight]
-@[spec] theorem scopeIsNecessary_fr (sc : Scope) : FPres t (scopeIsNecessary sc) := by
-  mvcgen [scopeIsNecessary]
-@[spec] theorem scopeIsValid_fr (sc : Scope) : FPres t (scopeIsValid sc) := by
-  mvcgen [scopeIsValid]
+@[spec high] theorem assertM_fr (c : Bool) (site : String) : FPres t (assertM c site) := by
+  fr_mvcgen [assertM]
+@[spec high] theorem dassert_fr (c : Bool) (site : String) : FPres t (dassert c site) := by
+  fr_mvcgen [dassert]
+@[spec high] theorem logEv_fr (e : Event) : FPres t (logEv e) := by
+  fr_mvcgen [logEv]
+@[spec high] theorem tick_fr : FPres t tick := by
+  fr_mvcgen [tick]
+@[spec high] theorem getNode_fr (n : Nat) : FPres t (getNode n) := by
+  fr_mvcgen [getNode]
+@[spec high] theorem modNode_fr (n : Nat) (f : Node → Node) : FPres t (modNode n f) := by
+  fr_mvcgen [modNode]
+@[spec high] theorem getBind_fr (n : Nat) : FPres t (getBind n) := by
+  fr_mvcgen [getBind]
+@[spec high] theorem modBind_fr (n : Nat) (f : BindRec → BindRec) : FPres t (modBind n f) := by
+  fr_mvcgen [modBind]
+@[spec high] theorem getExpert_fr (n : Nat) : FPres t (getExpert n) := by
+  fr_mvcgen [getExpert]
+@[spec high] theorem modExpert_fr (n : Nat) (f : ExpertRec → ExpertRec) : FPres t (modExpert n f) := by
+  fr_mvcgen [modExpert]
+@[spec high] theorem getVar_fr (n : Nat) : FPres t (getVar n) := by
+  fr_mvcgen [getVar]
+@[spec high] theorem modVar_fr (n : Nat) (f : VarCell → VarCell) : FPres t (modVar n f) := by
+  fr_mvcgen [modVar]
+@[spec high] theorem getObs_fr (n : Nat) : FPres t (getObs n) := by
+  fr_mvcgen [getObs]
+@[spec high] theorem modObs_fr (n : Nat) (f : ObsRec → ObsRec) : FPres t (modObs n f) := by
+  fr_mvcgen [modObs]
+@[spec high] theorem bumpCounter_fr (f : Counters → Counters) : FPres t (bumpCounter f) := by
+  fr_mvcgen [bumpCounter]
+@[spec high] theorem scopeHeight_fr (sc : Scope) : FPres t (scopeHeight sc) := by
+  fr_mvcgen [scopeHeight]
+@[spec high] theorem scopeIsNecessary_fr (sc : Scope) : FPres t (scopeIsNecessary sc) := by
+  fr_mvcgen [scopeIsNecessary]
+@[spec high] theorem scopeIsValid_fr (sc : Scope) : FPres t (scopeIsValid sc) := by
+  fr_mvcgen [scopeIsValid]
 
 /-! recompute heap, adjust-heights heap -/
 
-@[spec] theorem rchLink_fr (n : Nat) : FPres t (rchLink n) := by
-  mvcgen [rchLink]
-@[spec] theorem rchUnlink_fr (n : Nat) : FPres t (rchUnlink n) := by
-  mvcgen [rchUnlink]
-@[spec] theorem rchInsert_fr (n : Nat) : FPres t (rchInsert n) := by
-  mvcgen [rchInsert]
-@[spec] theorem rchRemove_fr (n : Nat) : FPres t (rchRemove n) := by
-  mvcgen [rchRemove]
-@[spec] theorem rchMinHeight_fr : FPres t rchMinHeight := by
-  mvcgen [rchMinHeight]
-@[spec] theorem rchIncreaseHeight_fr (n : Nat) : FPres t (rchIncreaseHeight n) := by
-  mvcgen [rchIncreaseHeight]
-@[spec] theorem rchRemoveMin_fr : FPres t rchRemoveMin := by
-  mvcgen [rchRemoveMin]
-@[spec] theorem setHeight_fr (n : Nat) (h : Int) : FPres t (setHeight n h) := by
-  mvcgen [setHeight]
-@[spec] theorem ahhAddUnlessMem_fr (n : Nat) : FPres t (ahhAddUnlessMem n) := by
-  mvcgen [ahhAddUnlessMem]
-@[spec] theorem ahhRemoveMin_fr : FPres t ahhRemoveMin := by
-  mvcgen [ahhRemoveMin]
-@[spec] theorem ensureHeightRequirement_fr (oc op c p : Nat) :
+@[spec high] theorem rchLink_fr (n : Nat) : FPres t (rchLink n) := by
+  fr_mvcgen [rchLink]
+@[spec high] theorem rchUnlink_fr (n : Nat) : FPres t (rchUnlink n) := by
+  fr_mvcgen [rchUnlink]
+@[spec high] theorem rchInsert_fr (n : Nat) : FPres t (rchInsert n) := by
+  fr_mvcgen [rchInsert]
+@[spec high] theorem rchRemove_fr (n : Nat) : FPres t (rchRemove n) := by
+  fr_mvcgen [rchRemove]
+@[spec high] theorem rchMinHeight_fr : FPres t rchMinHeight := by
+  fr_mvcgen [rchMinHeight]
+@[spec high] theorem rchIncreaseHeight_fr (n : Nat) : FPres t (rchIncreaseHeight n) := by
+  fr_mvcgen [rchIncreaseHeight]
+@[spec high] theorem rchRemoveMin_fr : FPres t rchRemoveMin := by
+  fr_mvcgen [rchRemoveMin]
+@[spec high] theorem setHeight_fr (n : Nat) (h : Int) : FPres t (setHeight n h) := by
+  fr_mvcgen [setHeight]
+@[spec high] theorem ahhAddUnlessMem_fr (n : Nat) : FPres t (ahhAddUnlessMem n) := by
+  fr_mvcgen [ahhAddUnlessMem]
+@[spec high] theorem ahhRemoveMin_fr : FPres t ahhRemoveMin := by
+  fr_mvcgen [ahhRemoveMin]
+@[spec high] theorem ensureHeightRequirement_fr (oc op c p : Nat) :
     FPres t (ensureHeightRequirement oc op c p) := by
-  mvcgen [ensureHeightRequirement]
+  fr_mvcgen [ensureHeightRequirement]
 
-@[spec] theorem adjustHeightsLoop_fr (oc op fuel : Nat) : FPres t (adjustHeightsLoop oc op fuel) := by
+@[spec high] theorem adjustHeightsLoop_fr (oc op fuel : Nat) : FPres t (adjustHeightsLoop oc op fuel) := by
   induction fuel with
-  | zero => mvcgen [adjustHeightsLoop]
+  | zero => fr_mvcgen [adjustHeightsLoop]
   | succ fuel ih =>
-    mvcgen [adjustHeightsLoop, ih]
+    fr_mvcgen [adjustHeightsLoop, ih]
     fr_fin t
 
-@[spec] theorem adjustHeights_fr (oc op fuel : Nat) : FPres t (adjustHeights oc op fuel) := by
-  mvcgen [adjustHeights]
+@[spec high] theorem adjustHeights_fr (oc op fuel : Nat) : FPres t (adjustHeights oc op fuel) := by
+  fr_mvcgen [adjustHeights]
 
 /-! parents, handlers bookkeeping, cutoffs, expert callbacks -/
 
-@[spec] theorem addParent_fr (c i p : Nat) : FPres t (addParent c i p) := by
-  mvcgen [addParent]
-@[spec] theorem removeParent_fr (c i p : Nat) : FPres t (removeParent c i p) := by
-  mvcgen [removeParent]
-@[spec] theorem handleAfterStabilisation_fr (n : Nat) : FPres t (handleAfterStabilisation n) := by
-  mvcgen [handleAfterStabilisation]
-@[spec] theorem maybeHandleAfterStabilisation_fr (n : Nat) :
+@[spec high] theorem addParent_fr (c i p : Nat) : FPres t (addParent c i p) := by
+  fr_mvcgen [addParent]
+@[spec high] theorem removeParent_fr (c i p : Nat) : FPres t (removeParent c i p) := by
+  fr_mvcgen [removeParent]
+@[spec high] theorem handleAfterStabilisation_fr (n : Nat) : FPres t (handleAfterStabilisation n) := by
+  fr_mvcgen [handleAfterStabilisation]
+@[spec high] theorem maybeHandleAfterStabilisation_fr (n : Nat) :
     FPres t (maybeHandleAfterStabilisation n) := by
-  mvcgen [maybeHandleAfterStabilisation]
-@[spec] theorem shouldCutoff_fr (env : Env) (n : Nat) (o v : Val) : FPres t (shouldCutoff env n o v) := by
-  mvcgen [shouldCutoff]
-@[spec] theorem edgeOnChange_fr (env : Env) (e : Nat) (edge : ExpertEdge) :
+  fr_mvcgen [maybeHandleAfterStabilisation]
+@[spec high] theorem shouldCutoff_fr (env : Env) (n : Nat) (o v : Val) : FPres t (shouldCutoff env n o v) := by
+  fr_mvcgen [shouldCutoff]
+@[spec high] theorem edgeOnChange_fr (env : Env) (e : Nat) (edge : ExpertEdge) :
     FPres t (edgeOnChange env e edge) := by
-  mvcgen [edgeOnChange]
-@[spec] theorem runEdgeCallback_fr (env : Env) (e i : Nat) : FPres t (runEdgeCallback env e i) := by
-  mvcgen [runEdgeCallback]
-@[spec] theorem observabilityChange_fr (e : Nat) (b : Bool) : FPres t (observabilityChange e b) := by
-  mvcgen [observabilityChange]
+  fr_mvcgen [edgeOnChange]
+@[spec high] theorem runEdgeCallback_fr (env : Env) (e i : Nat) : FPres t (runEdgeCallback env e i) := by
+  fr_mvcgen [runEdgeCallback]
+@[spec high] theorem observabilityChange_fr (e : Nat) (b : Bool) : FPres t (observabilityChange e b) := by
+  fr_mvcgen [observabilityChange]
 
 /-! the cascades -/
 
-@[spec] theorem markMapRefUnknown_fr (fuel n : Nat) : FPres t (markMapRefUnknown fuel n) := by
+@[spec high] theorem markMapRefUnknown_fr (fuel n : Nat) : FPres t (markMapRefUnknown fuel n) := by
   induction fuel generalizing n with
-  | zero => mvcgen [markMapRefUnknown]
+  | zero => fr_mvcgen [markMapRefUnknown]
   | succ fuel ih =>
-    mvcgen [markMapRefUnknown, ih, -Spec.forIn_list, forIn_pres]
+    fr_mvcgen [markMapRefUnknown, ih, -Spec.forIn_list, forIn_fr]
     fr_fin t
 
 theorem necessary_fr (env : Env) (fuel : Nat) :
@@ -208,20 +223,20 @@ theorem necessary_fr (env : Env) (fuel : Nat) :
   induction fuel with
   | zero =>
     refine ⟨?_, ?_⟩ <;> intros
-    · mvcgen [becameNecessary]
-    · mvcgen [addParentWithoutAdjustingHeights]
+    · fr_mvcgen [becameNecessary]
+    · fr_mvcgen [addParentWithoutAdjustingHeights]
   | succ fuel ih =>
     obtain ⟨ih1, ih2⟩ := ih
     refine ⟨?_, ?_⟩ <;> intros
-    · mvcgen [becameNecessary, ih2]
+    · fr_mvcgen [becameNecessary, ih2]
       fr_fin t
-    · mvcgen [addParentWithoutAdjustingHeights, ih1]
+    · fr_mvcgen [addParentWithoutAdjustingHeights, ih1]
       fr_fin t
 
-@[spec] theorem becameNecessary_fr (env : Env) (fuel n : Nat) : FPres t (becameNecessary env fuel n) :=
+@[spec high] theorem becameNecessary_fr (env : Env) (fuel n : Nat) : FPres t (becameNecessary env fuel n) :=
   (necessary_fr t env fuel).1 n
 
-@[spec] theorem addParentWithoutAdjustingHeights_fr (env : Env) (fuel c i p : Nat) :
+@[spec high] theorem addParentWithoutAdjustingHeights_fr (env : Env) (fuel c i p : Nat) :
     FPres t (addParentWithoutAdjustingHeights env fuel c i p) :=
   (necessary_fr t env fuel).2 c i p
 
@@ -231,181 +246,181 @@ theorem unnecessary_fr (fuel : Nat) :
   induction fuel with
   | zero =>
     refine ⟨?_, ?_, ?_⟩ <;> intro n
-    · mvcgen [becameUnnecessary]
-    · mvcgen [checkIfUnnecessary]
-    · mvcgen [removeChildren]
+    · fr_mvcgen [becameUnnecessary]
+    · fr_mvcgen [checkIfUnnecessary]
+    · fr_mvcgen [removeChildren]
   | succ fuel ih =>
     obtain ⟨ih1, ih2, ih3⟩ := ih
     refine ⟨?_, ?_, ?_⟩ <;> intro n
-    · mvcgen [becameUnnecessary, ih3]
-    · mvcgen [checkIfUnnecessary, ih1]
-    · mvcgen [removeChildren, ih2] invariants
-        · post⟨fun _ s => ⌜Fr t s⌝, fun _ s => ⌜Fr t s⌝⟩
+    · fr_mvcgen [becameUnnecessary, ih3]
+    · fr_mvcgen [checkIfUnnecessary, ih1]
+    · fr_mvcgen [removeChildren, ih2]
+      fr_fin t
 
-@[spec] theorem becameUnnecessary_fr (fuel n : Nat) : FPres t (becameUnnecessary fuel n) :=
+@[spec high] theorem becameUnnecessary_fr (fuel n : Nat) : FPres t (becameUnnecessary fuel n) :=
   (unnecessary_fr t fuel).1 n
-@[spec] theorem checkIfUnnecessary_fr (fuel n : Nat) : FPres t (checkIfUnnecessary fuel n) :=
+@[spec high] theorem checkIfUnnecessary_fr (fuel n : Nat) : FPres t (checkIfUnnecessary fuel n) :=
   (unnecessary_fr t fuel).2.1 n
-@[spec] theorem removeChildren_fr (fuel n : Nat) : FPres t (removeChildren fuel n) :=
+@[spec high] theorem removeChildren_fr (fuel n : Nat) : FPres t (removeChildren fuel n) :=
   (unnecessary_fr t fuel).2.2 n
 
-@[spec] theorem invalidateNode_fr (fuel n : Nat) : FPres t (invalidateNode fuel n) := by
+@[spec high] theorem invalidateNode_fr (fuel n : Nat) : FPres t (invalidateNode fuel n) := by
   induction fuel generalizing n with
-  | zero => mvcgen [invalidateNode]
+  | zero => fr_mvcgen [invalidateNode]
   | succ fuel ih =>
-    mvcgen [invalidateNode, ih]
+    fr_mvcgen [invalidateNode, ih]
     fr_fin t
 
-@[spec] theorem propagateInvalidity_fr (fuel : Nat) : FPres t (propagateInvalidity fuel) := by
+@[spec high] theorem propagateInvalidity_fr (fuel : Nat) : FPres t (propagateInvalidity fuel) := by
   induction fuel with
-  | zero => mvcgen [propagateInvalidity]
+  | zero => fr_mvcgen [propagateInvalidity]
   | succ fuel ih =>
-    mvcgen [propagateInvalidity, ih]
+    fr_mvcgen [propagateInvalidity, ih]
     fr_fin t
 
-@[spec] theorem becameNecessaryPropagate_fr (env : Env) (fuel n : Nat) :
+@[spec high] theorem becameNecessaryPropagate_fr (env : Env) (fuel n : Nat) :
     FPres t (becameNecessaryPropagate env fuel n) := by
-  mvcgen [becameNecessaryPropagate]
+  fr_mvcgen [becameNecessaryPropagate]
 
-@[spec] theorem stateAddParent_fr (env : Env) (fuel c i p : Nat) :
+@[spec high] theorem stateAddParent_fr (env : Env) (fuel c i p : Nat) :
     FPres t (stateAddParent env fuel c i p) := by
-  mvcgen [stateAddParent]
+  fr_mvcgen [stateAddParent]
 
-@[spec] theorem changeChildBindRhs_fr (env : Env) (fuel main : Nat) (old : Option Nat) (new index : Nat) :
+@[spec high] theorem changeChildBindRhs_fr (env : Env) (fuel main : Nat) (old : Option Nat) (new index : Nat) :
     FPres t (changeChildBindRhs env fuel main old new index) := by
-  mvcgen [changeChildBindRhs]
+  fr_mvcgen [changeChildBindRhs]
 
 /-! the expert API -/
 
-@[spec] theorem assertRunningIsChild_fr (n : Nat) (name : String) :
+@[spec high] theorem assertRunningIsChild_fr (n : Nat) (name : String) :
     FPres t (assertRunningIsChild n name) := by
-  mvcgen [assertRunningIsChild]
-@[spec] theorem expertOf_fr (n : Nat) : FPres t (expertOf n) := by
-  mvcgen [expertOf]
-@[spec] theorem expertIdxRaw_fr (n : Nat) : FPres t (expertIdxRaw n) := by
-  mvcgen [expertIdxRaw]
-@[spec] theorem expertMakeStale_fr (n : Nat) : FPres t (expertMakeStale n) := by
-  mvcgen [expertMakeStale]
-@[spec] theorem expertAddDependency_fr (env : Env) (fuel n child : Nat) (cb : Bool) :
+  fr_mvcgen [assertRunningIsChild]
+@[spec high] theorem expertOf_fr (n : Nat) : FPres t (expertOf n) := by
+  fr_mvcgen [expertOf]
+@[spec high] theorem expertIdxRaw_fr (n : Nat) : FPres t (expertIdxRaw n) := by
+  fr_mvcgen [expertIdxRaw]
+@[spec high] theorem expertMakeStale_fr (n : Nat) : FPres t (expertMakeStale n) := by
+  fr_mvcgen [expertMakeStale]
+@[spec high] theorem expertAddDependency_fr (env : Env) (fuel n child : Nat) (cb : Bool) :
     FPres t (expertAddDependency env fuel n child cb) := by
-  mvcgen [expertAddDependency]
-@[spec] theorem swapEdgeIndices_fr (n c1 i1 c2 i2 : Nat) : FPres t (swapEdgeIndices n c1 i1 c2 i2) := by
-  mvcgen [swapEdgeIndices]
-@[spec] theorem expertRemoveDependency_fr (fuel n dep : Nat) :
+  fr_mvcgen [expertAddDependency]
+@[spec high] theorem swapEdgeIndices_fr (n c1 i1 c2 i2 : Nat) : FPres t (swapEdgeIndices n c1 i1 c2 i2) := by
+  fr_mvcgen [swapEdgeIndices]
+@[spec high] theorem expertRemoveDependency_fr (fuel n dep : Nat) :
     FPres t (expertRemoveDependency fuel n dep) := by
-  mvcgen [expertRemoveDependency]
-@[spec] theorem expertInvalidate_fr (fuel n : Nat) : FPres t (expertInvalidate fuel n) := by
-  mvcgen [expertInvalidate]
+  fr_mvcgen [expertRemoveDependency]
+@[spec high] theorem expertInvalidate_fr (fuel n : Nat) : FPres t (expertInvalidate fuel n) := by
+  fr_mvcgen [expertInvalidate]
 
 /-! node creation, var writes, observers -/
 
-@[spec] theorem mapM_fr {α β} (f : α → M β) (hf : ∀ a, FPres t (f a)) (l : List α) :
+@[spec high] theorem mapM_fr {α β} (f : α → M β) (hf : ∀ a, FPres t (f a)) (l : List α) :
     FPres t (l.mapM f) := by
   induction l with
-  | nil => mvcgen [List.mapM_nil]
+  | nil => fr_mvcgen [List.mapM_nil]
   | cons a l ih =>
     have := hf a
     rw [List.mapM_cons]
-    mvcgen [this, ih]
+    fr_mvcgen [this, ih]
 
-@[spec] theorem mapConst_fr {α β} (b : β) (x : M α) (hx : FPres t x) :
+@[spec high] theorem mapConst_fr {α β} (b : β) (x : M α) (hx : FPres t x) :
     FPres t (Functor.mapConst b x) := by
   rw [LawfulFunctor.map_const]
   simp only [Function.comp_apply]
-  mvcgen [hx]
+  fr_mvcgen [hx]
 
-@[spec] theorem createNode_fr (k : Kind) (sc : Scope) (c : CutoffK) : FPres t (createNode k sc c) := by
-  mvcgen [createNode]
-@[spec] theorem createVar_fr (v : Val) (sc : Scope) : FPres t (createVar v sc) := by
-  mvcgen [createVar]
-@[spec] theorem createBind_fr (body lhs : Nat) : FPres t (createBind body lhs) := by
-  mvcgen [createBind]
-@[spec] theorem isConstant_fr (n : Nat) : FPres t (isConstant n) := by
-  mvcgen [isConstant]
-@[spec] theorem resolveOpnd_fr (loc : List Nat) (o : Opnd) : FPres t (resolveOpnd loc o) := by
-  mvcgen [resolveOpnd]
-@[spec] theorem elabInstr_fr (loc : List Nat) (v : Val) (i : Instr) : FPres t (elabInstr loc v i) := by
-  mvcgen [elabInstr]
+@[spec high] theorem createNode_fr (k : Kind) (sc : Scope) (c : CutoffK) : FPres t (createNode k sc c) := by
+  fr_mvcgen [createNode]
+@[spec high] theorem createVar_fr (v : Val) (sc : Scope) : FPres t (createVar v sc) := by
+  fr_mvcgen [createVar]
+@[spec high] theorem createBind_fr (body lhs : Nat) : FPres t (createBind body lhs) := by
+  fr_mvcgen [createBind]
+@[spec high] theorem isConstant_fr (n : Nat) : FPres t (isConstant n) := by
+  fr_mvcgen [isConstant]
+@[spec high] theorem resolveOpnd_fr (loc : List Nat) (o : Opnd) : FPres t (resolveOpnd loc o) := by
+  fr_mvcgen [resolveOpnd]
+@[spec high] theorem elabInstr_fr (loc : List Nat) (v : Val) (i : Instr) : FPres t (elabInstr loc v i) := by
+  fr_mvcgen [elabInstr]
   fr_fin t
-@[spec] theorem elabTemplate_fr (tp : Template) (v : Val) : FPres t (elabTemplate tp v) := by
-  mvcgen [elabTemplate]
+@[spec high] theorem elabTemplate_fr (tp : Template) (v : Val) : FPres t (elabTemplate tp v) := by
+  fr_mvcgen [elabTemplate]
   fr_fin t
-@[spec] theorem didSetVarWhileNotStabilising_fr (v : Nat) :
+@[spec high] theorem didSetVarWhileNotStabilising_fr (v : Nat) :
     FPres t (didSetVarWhileNotStabilising v) := by
-  mvcgen [didSetVarWhileNotStabilising]
-@[spec] theorem writeVar_fr (v : Nat) (f : Val → Val) (isSet : Bool) : FPres t (writeVar v f isSet) := by
-  mvcgen [writeVar]
-@[spec] theorem disallowFutureUse_fr (o : Nat) : FPres t (disallowFutureUse o) := by
-  mvcgen [disallowFutureUse]
-@[spec] theorem subscribe_fr (o hid : Nat) : FPres t (subscribe o hid) := by
-  mvcgen [subscribe]
-@[spec] theorem unsubscribe_fr (o token owner : Nat) : FPres t (unsubscribe o token owner) := by
-  mvcgen [unsubscribe]
-@[spec] theorem runEffectBasic_fr (env : Env) (e : Effect) : FPres t (runEffectBasic env e) := by
-  mvcgen [runEffectBasic, Functor.discard]
+  fr_mvcgen [didSetVarWhileNotStabilising]
+@[spec high] theorem writeVar_fr (v : Nat) (f : Val → Val) (isSet : Bool) : FPres t (writeVar v f isSet) := by
+  fr_mvcgen [writeVar]
+@[spec high] theorem disallowFutureUse_fr (o : Nat) : FPres t (disallowFutureUse o) := by
+  fr_mvcgen [disallowFutureUse]
+@[spec high] theorem subscribe_fr (o hid : Nat) : FPres t (subscribe o hid) := by
+  fr_mvcgen [subscribe]
+@[spec high] theorem unsubscribe_fr (o token owner : Nat) : FPres t (unsubscribe o token owner) := by
+  fr_mvcgen [unsubscribe]
+@[spec high] theorem runEffectBasic_fr (env : Env) (e : Effect) : FPres t (runEffectBasic env e) := by
+  fr_mvcgen [runEffectBasic, Functor.discard]
   all_goals exact writeVar_fr _ _ _ _
 
 /-! recompute -/
 
-@[spec] theorem valueUnwrap_fr (env : Env) (n : Nat) (site : String) :
+@[spec high] theorem valueUnwrap_fr (env : Env) (n : Nat) (site : String) :
     FPres t (valueUnwrap env n site) := by
-  mvcgen [valueUnwrap]
+  fr_mvcgen [valueUnwrap]
 
-@[spec] theorem childChanged_fr (env : Env) (fuel p c ci : Nat) (o : Option Val) :
+@[spec high] theorem childChanged_fr (env : Env) (fuel p c ci : Nat) (o : Option Val) :
     FPres t (childChanged env fuel p c ci o) := by
   induction fuel generalizing p c ci o with
-  | zero => mvcgen [childChanged]
+  | zero => fr_mvcgen [childChanged]
   | succ fuel ih =>
-    mvcgen [childChanged, ih]
+    fr_mvcgen [childChanged, ih]
     fr_fin t
 
-@[spec] theorem parentIterCanRecomputeNow_fr (p child : Nat) :
+@[spec high] theorem parentIterCanRecomputeNow_fr (p child : Nat) :
     FPres t (parentIterCanRecomputeNow p child) := by
-  mvcgen [parentIterCanRecomputeNow]
+  fr_mvcgen [parentIterCanRecomputeNow]
 
-@[spec] theorem maybeChangeValueManual_fr (env : Env) (fuel n : Nat) (o : Option Val) (b1 b2 : Bool) :
+@[spec high] theorem maybeChangeValueManual_fr (env : Env) (fuel n : Nat) (o : Option Val) (b1 b2 : Bool) :
     FPres t (maybeChangeValueManual env fuel n o b1 b2) := by
-  mvcgen [maybeChangeValueManual]
+  fr_mvcgen [maybeChangeValueManual]
   fr_fin t
 
-@[spec] theorem maybeChangeValue_fr (env : Env) (fuel n : Nat) (v : Val) :
+@[spec high] theorem maybeChangeValue_fr (env : Env) (fuel n : Nat) (v : Val) :
     FPres t (maybeChangeValue env fuel n v) := by
-  mvcgen [maybeChangeValue]
+  fr_mvcgen [maybeChangeValue]
 
-@[spec] theorem runEffects_fr (env : Env) (fuel : Nat) (effs : List Effect) (arg : Int) :
+@[spec high] theorem runEffects_fr (env : Env) (fuel : Nat) (effs : List Effect) (arg : Int) :
     FPres t (runEffects env fuel effs arg) := by
-  mvcgen [runEffects, -Spec.forIn_list, forIn_pres]
+  fr_mvcgen [runEffects, -Spec.forIn_list, forIn_fr]
 
-@[spec] theorem recomputeOne_fr (env : Env) (fuel n : Nat) : FPres t (recomputeOne env fuel n) := by
-  mvcgen [recomputeOne]
+@[spec high] theorem recomputeOne_fr (env : Env) (fuel n : Nat) : FPres t (recomputeOne env fuel n) := by
+  fr_mvcgen [recomputeOne]
   fr_fin t
 
-@[spec] theorem recompute_fr (env : Env) (fuel n : Nat) : FPres t (recompute env fuel n) := by
+@[spec high] theorem recompute_fr (env : Env) (fuel n : Nat) : FPres t (recompute env fuel n) := by
   induction fuel generalizing n with
-  | zero => mvcgen [recompute]
-  | succ fuel ih => mvcgen [recompute, ih]
+  | zero => fr_mvcgen [recompute]
+  | succ fuel ih => fr_mvcgen [recompute, ih]
 
 /-! the pieces of `stabilise` -/
 
-@[spec] theorem addNewObservers_fr (env : Env) (fuel : Nat) : FPres t (addNewObservers env fuel) := by
-  mvcgen [addNewObservers]
+@[spec high] theorem addNewObservers_fr (env : Env) (fuel : Nat) : FPres t (addNewObservers env fuel) := by
+  fr_mvcgen [addNewObservers]
   fr_fin t
 
-@[spec] theorem unlinkDisallowedObservers_fr (fuel : Nat) : FPres t (unlinkDisallowedObservers fuel) := by
-  mvcgen [unlinkDisallowedObservers]
+@[spec high] theorem unlinkDisallowedObservers_fr (fuel : Nat) : FPres t (unlinkDisallowedObservers fuel) := by
+  fr_mvcgen [unlinkDisallowedObservers]
   fr_fin t
 
-@[spec] theorem runAll_fr (env : Env) (fuel o n : Nat) (nu : NodeUpdate) (now : Int) :
+@[spec high] theorem runAll_fr (env : Env) (fuel o n : Nat) (nu : NodeUpdate) (now : Int) :
     FPres t (runAll env fuel o n nu now) := by
-  mvcgen [runAll, -Spec.forIn_list, forIn_pres]
+  fr_mvcgen [runAll, -Spec.forIn_list, forIn_fr]
 
-@[spec] theorem drainHeap_fr (env : Env) (fuel : Nat) : FPres t (drainHeap env fuel) := by
+@[spec high] theorem drainHeap_fr (env : Env) (fuel : Nat) : FPres t (drainHeap env fuel) := by
   induction fuel with
-  | zero => mvcgen [drainHeap]
-  | succ fuel ih => mvcgen [drainHeap, ih]
+  | zero => fr_mvcgen [drainHeap]
+  | succ fuel ih => fr_mvcgen [drainHeap, ih]
 
-@[spec] theorem setMaxHeightAllowed_fr (newMax : Nat) : FPres t (setMaxHeightAllowed newMax) := by
-  mvcgen [setMaxHeightAllowed]
+@[spec high] theorem setMaxHeightAllowed_fr (newMax : Nat) : FPres t (setMaxHeightAllowed newMax) := by
+  fr_mvcgen [setMaxHeightAllowed]
 
 end frame
 
@@ -465,15 +480,15 @@ theorem stabilise_phases (env : Env) (fuel : Nat) :
   simp only [stabilise, propagate, bind_assoc]
 
 theorem propagate_fr (t : Tag) (env : Env) (fuel : Nat) : FPres t (propagate env fuel) := by
-  mvcgen [propagate]
+  fr_mvcgen [propagate]
 
 theorem stabiliseEndPrepare_fr (t : Tag) (env : Env) : FPres t (stabiliseEndPrepare env) := by
-  mvcgen [stabiliseEndPrepare]
+  fr_mvcgen [stabiliseEndPrepare]
   fr_fin t
 
 theorem runHandlers_fr (t : Tag) (env : Env) (fuel : Nat) (q : List (Nat × NodeUpdate)) :
     FPres t (runHandlers env fuel q) := by
-  mvcgen [runHandlers, -Spec.forIn_list, forIn_pres]
+  fr_mvcgen [runHandlers, -Spec.forIn_list, forIn_fr]
 
 /-- `stabilise` from a state that is not stabilising, phase by phase: the status is written exactly
 three times, and a panic in a phase is the outcome of the whole call, with the state of that moment -/
@@ -534,11 +549,11 @@ theorem firstNonEmpty_ne_nil (q : Array (List Nat)) :
 theorem rchRemoveMin_none (t : Tag) (hd : t.cfg.debug = true) :
     ⦃fun s => ⌜Fr t s⌝⦄ rchRemoveMin
     ⦃post⟨fun r s => ⌜Fr t s ∧ (r = none → s.rch.length = 0)⌝, fun _ s => ⌜Fr t s⌝⟩⦄ := by
-  mvcgen [-rchRemoveMin_fr, -dassert_fr, -modNode_fr, rchRemoveMin, dassert, modNode]
+  fr_mvcgen [-rchRemoveMin_fr, -dassert_fr, -modNode_fr, rchRemoveMin, dassert, modNode]
   case vc1 => exact ⟨‹_›, by simpa using ‹(_ == 0) = true›⟩
   case vc4 =>
     rename_i s hfr _ _ _ _ hdb _
-    have : s.cfg.debug = true := by rw [hfr.2]; exact hd
+    have : s.cfg.debug = true := by rw [hfr.2.1]; exact hd
     simp [this] at hdb
   case vc5 =>
     rename_i s _ _ _ _ hq
@@ -554,12 +569,77 @@ theorem drainHeap_empty (t : Tag) (hd : t.cfg.debug = true) (env : Env) (fuel : 
     ⦃post⟨fun _ s => ⌜Fr t s ∧ s.rch.length = 0⌝, fun _ s => ⌜Fr t s⌝⟩⦄ := by
   have hrm := rchRemoveMin_none t hd
   induction fuel with
-  | zero => mvcgen [-drainHeap_fr, drainHeap]
+  | zero => fr_mvcgen [-drainHeap_fr, drainHeap]
   | succ fuel ih =>
-    mvcgen [-drainHeap_fr, -rchRemoveMin_fr, drainHeap, hrm, ih]
+    fr_mvcgen [-drainHeap_fr, -rchRemoveMin_fr, drainHeap, hrm, ih]
     all_goals first
+      | assumption
       | exact (‹Fr _ _ ∧ _›).1
       | exact ⟨(‹Fr _ _ ∧ _›).1, (‹Fr _ _ ∧ _›).2 rfl⟩
       | skip
+
+/-- debug builds: the propagation phase returns normally only with an empty recompute heap -/
+theorem propagate_empty (t : Tag) (hd : t.cfg.debug = true) (env : Env) (fuel : Nat) :
+    ⦃fun s => ⌜Fr t s⌝⦄ propagate env fuel
+    ⦃post⟨fun _ s => ⌜Fr t s ∧ s.rch.length = 0⌝, fun _ s => ⌜Fr t s⌝⟩⦄ := by
+  have hdr := drainHeap_empty t hd env fuel
+  fr_mvcgen [propagate, -drainHeap_fr, hdr]
+
+/-- plain form of `drainHeap_empty` -/
+theorem drainHeap_empty_run (env : Env) (fuel : Nat) (s s' : State) (hd : s.cfg.debug = true)
+    (hr : (drainHeap env fuel).run.run s = (.ok (), s')) : s'.rch.length = 0 := by
+  have := (triple_iff _ _ _ _).1 (drainHeap_empty (tagOf s) hd env fuel) s (Fr_tagOf s)
+  rw [hr] at this
+  exact this.2
+
+theorem propagate_empty_run (env : Env) (fuel : Nat) (s s' : State) (hd : s.cfg.debug = true)
+    (hr : (propagate env fuel).run.run s = (.ok (), s')) : s'.rch.length = 0 := by
+  have := (triple_iff _ _ _ _).1 (propagate_empty (tagOf s) hd env fuel) s (Fr_tagOf s)
+  rw [hr] at this
+  exact this.2
+
+/-! ## Part 4: sequences of calls of the public API other than `stabilise` -/
+
+/-- one call of the public API other than `stabilise` (result discarded) -/
+inductive ApiCall where
+  | writeVar (v : Nat) (f : Val → Val) (isSet : Bool)
+  | subscribe (o hid : Nat)
+  | unsubscribe (o token owner : Nat)
+  | disallowFutureUse (o : Nat)
+  | elabInstr (lhsVal : Val) (i : Instr)
+  | setMaxHeightAllowed (newMax : Nat)
+
+def ApiCall.run : ApiCall → M Unit
+  | .writeVar v f isSet => do let _ ← Engine.writeVar v f isSet
+  | .subscribe o hid => do let _ ← Engine.subscribe o hid
+  | .unsubscribe o token owner => do let _ ← Engine.unsubscribe o token owner
+  | .disallowFutureUse o => Engine.disallowFutureUse o
+  | .elabInstr lhsVal i => do let _ ← Engine.elabInstr [] lhsVal i
+  | .setMaxHeightAllowed newMax => Engine.setMaxHeightAllowed newMax
+
+/-- the state after the call, whether it returned or panicked (a caught panic leaves the state as it
+was at the panic point) -/
+def ApiCall.step (c : ApiCall) (s : State) : State := (c.run.run.run s).2
+
+/-- the state after a sequence of calls, each possibly ending in a (caught) panic -/
+def runCalls (cs : List ApiCall) (s : State) : State := cs.foldl (fun s c => c.step s) s
+
+theorem ApiCall.run_fr (t : Tag) (c : ApiCall) : FPres t c.run := by
+  cases c <;> fr_mvcgen [ApiCall.run]
+
+theorem ApiCall.step_frame (c : ApiCall) (s : State) :
+    (c.step s).status = s.status ∧ (c.step s).cfg = s.cfg ∧ (c.step s).alive = s.alive :=
+  FPres.run (fun t => ApiCall.run_fr t c) s
+
+theorem runCalls_frame (cs : List ApiCall) (s : State) :
+    (runCalls cs s).status = s.status ∧ (runCalls cs s).cfg = s.cfg ∧
+      (runCalls cs s).alive = s.alive := by
+  induction cs generalizing s with
+  | nil => exact ⟨rfl, rfl, rfl⟩
+  | cons c cs ih =>
+    have h1 := ih (c.step s)
+    have h2 := c.step_frame s
+    simp only [runCalls, List.foldl_cons] at h1 ⊢
+    exact ⟨h1.1.trans h2.1, h1.2.1.trans h2.2.1, h1.2.2.trans h2.2.2⟩
 
 end IncrVerif.Proofs.Poison
